@@ -547,7 +547,7 @@ func (x *runner) doRead(stepIdx int, q *readReq, forcedTag string) {
 	v := judge(contents, q, R, strong)
 	if strong {
 		// size of the admissible page, for the non-triviality rule
-		if len(R) >= 2 && v.Clause == "" {
+		if len(R) >= 2 {
 			res.strongBig++
 			if tag == "incremental" || tag == "moved" {
 				res.sawWarmIndex = true
@@ -661,6 +661,7 @@ func TestCheck(t *testing.T) {
 		"unspecified, any outcome accepted (only no-duplicates / keys-exist / Limit respected are demanded): index read on a missing or emptied swamp (error or empty)",
 		"unspecified: VALUE_<T> index read while the swamp holds a record whose value kind is not T (membership and position of such records, and the effect on the others)",
 		"unspecified: ordering when a NaN is among the indexed float values",
+		"unspecified: a VALUE_<T> read after the value index was built or maintained while the swamp held a record of another kind or a NaN (e.g. a typed zero that came back void from disk, C05) — until the index is rebuilt after an eviction; earlier *reads* with another VALUE_* type do not excuse anything",
 		"unspecified: inverted window FromTime > ToTime; FromTime/ToTime sent with KEY or VALUE_* indexes",
 		"unspecified: whether IncludedKeys/ExcludeKeys are applied before or after From/Limit — both pages are accepted",
 		"Limit=0 means all (proto comment); From beyond the end yields an empty page; FromTime==ToTime is the empty window [t,t)",
